@@ -304,7 +304,15 @@ def modrm_tables(run):
         for (m_, s_) in lst:
             ent = x86mndb.db_afs[m_]
             if m_ >= 0xc0 and s_ is None and any(type(k) == int and k >= 0x40 for k, v in key):
-                continue        # mm/xmm register files
+                # mm/xmm register files: the reverse entry of register i is the one ModRM byte 11 000 iii (forge_opc ORs the other
+                # operand's reg field into it; any further entry yields encodings of other registers)
+                n += 1
+                regs = [k for k, v in key if type(k) == int]
+                if len(regs) != 1 or m_ != 0xc0 + (regs[0] & 7):
+                    rev_bad += 1
+                    if rev_bad <= 5:
+                        run.ob('C01:fd_afs[%s]' % str(key)[:80], FAILED, 'COMP', 'cpython', detail='reverse entry of an mm/xmm register maps to ModRM %02x (expected %02x only)' % (m_, 0xc0 + (regs[0] & 7) if regs else 0), confirmed=True, func='init_pre_modrm')
+                continue
             d = ent[s_] if s_ is not None else ent
             n += 1
             k2 = tuple((a, b) for (a, b) in x86mndb.modrm_key(d) if a != 'txt')
@@ -315,11 +323,54 @@ def modrm_tables(run):
                     run.ob('C01:fd_afs[%s]' % str(key)[:80], FAILED, 'COMP', 'cpython', detail='reverse entry (%s,%s) does not map back' % (m_, s_), confirmed=True, func='init_pre_modrm')
     run.bulk('ModRM/SIB table entries equal to SDM tables 2-1..2-3 (32-bit: 256 x SIB, 16-bit: 256) and reverse table entries', n - bad - rev_bad, 'COMP', 'cpython', time.time() - t0, DISCHARGED)
 
+def imm_helpers(run):
+    """COMP: get_im_fmt and intsize over their whole (finite) domain: width and signedness of an immediate field as the architecture fixes
+       them from the w / s bits and the operand size"""
+    import struct
+    from miasmx.arch import ia32_arch as A
+    from miasmx.tools import modint as M
+    db = A.x86mndb
+    n = bad = 0
+    for se_ in (False, True):
+        for w8_ in (False, True):
+            for mode in (A.u32, A.u16):
+                for im in (A.imm, A.ims):
+                    n += 1
+                    modifs = {A.se: se_, A.w8: w8_}
+                    if se_: want = (1, True)
+                    elif w8_: want = (1, im == A.ims)
+                    else: want = (4 if mode == A.u32 else 2, im == A.ims)
+                    try:
+                        size, fmt, t = db.get_im_fmt(modifs, mode, im)
+                        got = (size, fmt.islower())
+                        okt = t in {(1, True): (A.s08,), (1, False): (A.u08,), (2, True): (A.s16,), (2, False): (A.u16,), (4, True): (A.s32,), (4, False): (A.u32,)}[want]
+                        if got != want or struct.calcsize(fmt) != size or not okt:
+                            raise AssertionError('returns (%s, %r, %s)' % (size, fmt, t))
+                    except Exception as ex:
+                        bad += 1
+                        run.ob('C01:get_im_fmt[se=%s,w8=%s,%s,%s]' % (se_, w8_, mode, im), FAILED, 'COMP', 'cpython', detail='%s; the field is %d byte(s), %s' % (ex, want[0], 'signed' if want[1] else 'unsigned'), confirmed=True, func='get_im_fmt')
+    class _M(object): pass
+    for w8_ in (False, True):
+        for mode in (A.u32, A.u16):
+            for ext in (False, True):
+                n += 1
+                i = A.x86_mn.__new__(A.x86_mn); i.__init__({'opmode': mode})
+                i.m = _M(); i.m.modifs = {A.w8: w8_}
+                want = (32 if mode == A.u32 else 16) if (ext or not w8_) else 8
+                try:
+                    r = i.intsize(0x1ff, ext)
+                    if type(r).__name__ != 'uint%d' % want or int(r) != 0x1ff % (1 << want): raise AssertionError('returns %s(%#x)' % (type(r).__name__, int(r)))
+                except Exception as ex:
+                    bad += 1
+                    run.ob('C01:intsize[w8=%s,%s,ext=%s]' % (w8_, mode, ext), FAILED, 'COMP', 'cpython', detail='%s; expected an unsigned %d-bit value' % (ex, want), confirmed=True, func='intsize')
+    run.bulk('get_im_fmt / intsize over their whole domain', n - bad, 'COMP', 'cpython', 0.0, DISCHARGED)
+
 def main(argv):
     tier, seed, rest = common.parse_args(argv)
     common.use_repo()
     run = Run('C01', tier, seed, 'other', 'cd /verif && ./vcheck C01 --tier %s' % tier)
     modrm_tables(run)
+    imm_helpers(run)
     nparts = 64
     with multiprocessing.get_context('fork').Pool(min(16, os.cpu_count() or 4)) as pool:
         results = pool.map(_work, [(i, nparts, tier) for i in range(nparts)], chunksize=1)
